@@ -426,6 +426,7 @@ type sysListServer struct {
 	cuts  map[string]int
 	slows map[string]sysSlow
 	pathHits map[string]int
+	cutOnce  map[string]bool
 	// CutServed counts responses that were cut short on purpose.
 	CutServed atomic.Int64
 	// SlowServed counts trickled responses sent completely.
@@ -435,7 +436,7 @@ type sysListServer struct {
 }
 
 func sysStartListServer() (ls *sysListServer, err error) {
-	ls = &sysListServer{lists: map[string][]byte{}, cuts: map[string]int{}, slows: map[string]sysSlow{}, pathHits: map[string]int{}}
+	ls = &sysListServer{lists: map[string][]byte{}, cuts: map[string]int{}, slows: map[string]sysSlow{}, pathHits: map[string]int{}, cutOnce: map[string]bool{}}
 	for attempt := 0; attempt < 8; attempt++ {
 		ls.Port = verifkit.FreePort()
 		ln, e := net.Listen("tcp4", fmt.Sprintf("127.0.0.1:%d", ls.Port))
@@ -466,6 +467,13 @@ func sysStartListServer() (ls *sysListServer, err error) {
 				// Announce the whole body, send only a part and drop the
 				// connection.
 				ls.CutServed.Add(1)
+				ls.mu.Lock()
+				if ls.cutOnce[r.URL.Path] {
+					// Only this response is cut; the next request succeeds.
+					delete(ls.cuts, r.URL.Path)
+					delete(ls.cutOnce, r.URL.Path)
+				}
+				ls.mu.Unlock()
 				if hj, hok := w.(http.Hijacker); hok {
 					if conn, buf, herr := hj.Hijack(); herr == nil {
 						_, _ = fmt.Fprintf(buf, "HTTP/1.1 200 OK\r\nContent-Type: text/plain\r\nContent-Length: %d\r\n\r\n", len(b))
@@ -555,6 +563,16 @@ func (ls *sysListServer) SetCut(path string, content []byte, n int) {
 	ls.mu.Lock()
 	ls.lists[path] = content
 	ls.cuts[path] = n
+	ls.mu.Unlock()
+}
+
+// SetCutOnce is SetCut for the next response only: the request after it gets
+// the complete body.
+func (ls *sysListServer) SetCutOnce(path string, content []byte, n int) {
+	ls.mu.Lock()
+	ls.lists[path] = content
+	ls.cuts[path] = n
+	ls.cutOnce[path] = true
 	ls.mu.Unlock()
 }
 
